@@ -40,6 +40,13 @@ pub fn pool(clauses: &[String]) -> Vec<String> {
         out.push(format!("**{c}**"));
         out.push(format!("// {c}"));
         out.push(format!("{c}\n\n{c}"));
+        // the same clause characters behind different neighbours (a rule must not look across
+        // the clause boundary, or the cache key misses what it looked at)
+        for p in ["!", "?", ".", ";", ",", ":", " <!", "("] {
+            out.push(format!("Stop{p}{c}"));
+        }
+        out.push(format!("{c}>"));
+        out.push(format!("{c}!Go on"));
         for (j, d) in clauses.iter().enumerate() {
             if i != j {
                 out.push(format!("{c} {d}"));
@@ -181,6 +188,7 @@ fn clause() -> BoxedStrategy<String> {
         4 => g::harvested_sentence().prop_map(|s| s.replace('\n', " ")),
         2 => g::mutated_sentence().prop_map(|s| s.replace('\n', " ")),
         2 => g::word_sentence().prop_map(|s| s.replace('\n', " ")),
+        1 => g::sel_str(&["--and then it rained", "-- draft --> out.", "---so what", "'s the day", ") an apple", "-ish then"]),
         1 => g::sel_str(&["I could **of** done it", "their *is* an `apple`", "the the _cat_", "an [apple](x) a day", "# teh heading", "he said \"an apple\" <b>teh</b>", "#let x = [teh]", "1. could of"]),
     ]
     .boxed()
